@@ -24,15 +24,22 @@ def run(ctx):
         "plus the trust-anchor configuration of either entry {CA inline, CA by file (caCertificateFile), no CA at all (the machine's trust store, which the harness points at the foreign CA), "
         "a bundle of several CA certificates - CA one first / in the middle / last among authorities that issued nothing - given inline or by file} "
         "x server certificate {Good, Untrusted} x insecure x client certificate x require-client-cert on every carrier (configurations whose outcome the property does not decide - a peer "
-        "chaining to the machine's trust store at an entry without a CA - are left out): "
+        "chaining to the machine's trust store at an entry without a CA - are left out), "
+        "plus the matrix with the upstream address written in the carrier's OTHER accepted spelling (wss:// for https://, ws:// for http://, udp4:// for udp://, the latter through the client's own address parser; "
+        "the machine's trust store holds the foreign CA only, so the configured CA and the process default differ), "
+        "plus OWN certificates that carry a chain, inline or (seeded) by certificateFile: server certificate {leaf + the CA that issued it, leaf issued by an intermediate of that CA + the intermediate} x "
+        "client certificate {leaf + issuing CA, foreign leaf through the foreign CA's intermediate + intermediate} x server certificate {Good, Untrusted} x insecure x client certificate x require - "
+        "in particular a server whose certificate file is leaf + foreign CA while CA one is configured, asked by a client holding a foreign-CA certificate, and a client whose certificate file is leaf + foreign CA "
+        "while CA one is configured, meeting a server of the foreign CA: "
         "a fresh real server command + client command is started, a logical connection is opened through the client's listener and one probe byte written; "
         "observed = admitted (the channel's recording target accepted a connection; probe byte read there) / refused (application saw end-of-stream or reset and a barrier "
         "connection through the target's accept queue shows the server never dialled it) / pending (neither within the stall window). Oracle: reference model "
         "admit = (insecure or (chains to client's CA and within validity and matches host as written)) and (not require or client cert signed by server's CA); "
         "an entry without a CA never accepts a peer without a certificate or with one of the run's own CA; "
         "a peer chaining to CA one chains to the configured CA wherever CA one stands in a configured bundle; "
+        "the spelling of the upstream address changes nothing; what an endpoint carries along in its own certificate never adds to what it trusts in its peers, and a server certificate that reaches the configured CA through an intermediate it sends along chains to it (a client certificate of the server's CA through an intermediate is not decided by the statement and left out); "
         "secrets: admit = the two secrets are the same string; on udp+secret+starttls admit = the certificate model and equal secrets (the secret replaces neither the verification of the server certificate nor the client-certificate requirement). Both directions of disagreement are violations; pending satisfies an expected refusal. Quick = per-carrier single-deviation core + seeded "
-        "greedy pairwise cover + seeded extras (~240 cases) + 28 shared-secret cases + per-carrier trust-anchor core (16 configurations, 6 of them with a CA bundle) and 30 seeded picks (142), thorough = the whole matrix (7 carriers, 1248) + the 46 host-less / preceded-upstream / different-secret core cases + the whole trust-anchor list (10 anchor combinations, 2093) + the same shared-secret cases. Distinct = the configuration tuple; non-trivial = the probe reached one of the three observations.",
+        "greedy pairwise cover + seeded extras (~240 cases) + 28 shared-secret cases + per-carrier trust-anchor core (16 configurations, 6 of them with a CA bundle) and 30 seeded picks (142) + the other-spelling core (8 per carrier with a second spelling, 32) and a seeded half of the pairwise/extra picks in the other spelling + the chain core (6 per carrier) and 20 seeded picks of the chain list (62), thorough = the matrix once more in the other spelling (768) + the whole chain list (1288) + the whole matrix (7 carriers, 1248) + the 46 host-less / preceded-upstream / different-secret core cases + the whole trust-anchor list (10 anchor combinations, 2093) + the same shared-secret cases. Distinct = the configuration tuple; non-trivial = the probe reached one of the three observations.",
         ["loopback sockets stand for the network; host names are localhost / 127.0.0.1 / t.example.org",
          "certificates are ECDSA P-256 issued by two run-time CAs; Go's crypto/tls of the local toolchain does the verifying",
          "stdin+tls (documented exception: certificate not verified) and unix carriers (no host name) are excluded"],
